@@ -669,7 +669,10 @@ class CircuitDAG(CircuitBase):
                 if gate_class is not None:
                     circuit.add(gate_class(register=reg, reg_type=reg_type))
                 else:
-                    circuit_list = [ops.name_to_class_map(letter) for letter in name]
+                    circuit_list = [
+                        ops.name_to_class_map(letter)
+                        for letter in re.findall(r"sdg|.", name)
+                    ]
                     assert None not in circuit_list, (
                         f"Gate not recognized, parsing invalid/"
                         f"{name} parsed to {circuit_list}"
